@@ -218,12 +218,15 @@ func run(c *core.Ctx) {
 		if c.Expired() {
 			return
 		}
-		caseNo, _ := c.Begin()
+		caseNo, run := c.Begin()
+		in := Input{s.Family, s.Desc, s.Files}
+		if c.Skip(caseNo, run, in) {
+			return
+		}
 		c.Exec()
 		c.Edge(2)
 		c.StateN(1)
 		f, clean, _ := check(s.Files)
-		in := Input{s.Family, s.Desc, s.Files}
 		if !clean && f == nil {
 			c.Exclude()
 			c.Outcome("not-clean:outside-the-quantifier")
